@@ -225,3 +225,10 @@ Definition ok_intercept (c : provider * request * request) : bool :=
   && list_eqb pair_eqb (cookies r') (cookies obs).
 
 Definition mismatches_intercept := mismatches ok_intercept.
+
+(** C13: observed = the typed field Parse<Op>Response filled (None = none). *)
+From V Require Import Model.RespParse.
+Definition ok_parse (c : list (rname * list (mtype * string)) * nat * string * option string) : bool :=
+  let '(rs, status, ct, obs) := c in
+  opt_eqb String.eqb (parse rs status ct) obs.
+Definition mismatches_parse := mismatches ok_parse.
